@@ -8,6 +8,7 @@ import (
 	"context"
 	"fmt"
 	"net"
+	"runtime/debug"
 	"sort"
 	"strings"
 
@@ -26,6 +27,7 @@ import (
 )
 
 func init() {
+	debug.SetGCPercent(400)
 	logrus.SetLevel(logrus.PanicLevel)
 	logrus.StandardLogger().ExitFunc = func(int) { panic("logrus.Fatal") }
 }
